@@ -149,6 +149,16 @@ CHECKS = {
          "variables before the student evaluation, check_scope -- bounded: neutral-term cheating formulas for every restriction at full and partial credit.",
     note="Assumed: A9/C10 the reported function-usage sets are exact; raw_check's verdict/credit relation (consolidate_results contract); str.replace uninterpreted but applied identically on both sides (A6).",
     design="6/C09"),
+ 'C10': dict(
+    technique="contract-based deductive verification (pyvc) of the parser's state handling (data-structure invariant over exceptional exits, aliasing of the scratch sets) with pyparsing as an abstract callee; bounded derivations and call sequences as stand-in for the grammar's parse actions",
+    text="Proved for every input and every prior parser state satisfying the invariant: MathParser.reset_storage rebinds three FRESH empty sets and writes nothing but the parser object (the sets held by "
+         "expressions already returned are not touched); MathParser.raw_parse leaves the scratch storage fresh and empty on EVERY exit, normal or exceptional (try/finally), and the returned expression "
+         "holds, by reference, exactly the sets filled during this parse; MathParser.parse uses the formula with spaces (only spaces) removed as cache key, returns what the cache holds, leaves every other "
+         "entry untouched, and on a failed parse raises with the cache unchanged (failures are not cached). Hence under A9 the outcome of parse(s) is a function of s alone, for every history. "
+         "NOT proved: that the reported sets are exact (the grammar's parse actions under backtracking) -- bounded: 1500+ generated derivations with constructed name sets, and call sequences over a "
+         "13-string alphabet including malformed strings against fresh parsers.",
+    note="Assumed: A9 pyparsing's parseString is deterministic in (grammar, text) and only calls the registered parse actions; BracketValidator.validate is a trusted contract (namedtuple records outside the subset).",
+    design="6/C10"),
 }
 
 NOT_YET = {}
